@@ -108,7 +108,13 @@ func H_c20_course() {
 func H_c20_message() {
 	var p PosReport
 	p.Date = time.Date(2016, 1, 2, 3, 4, 0, 0, time.UTC)
-	lat, lon, speed := 60.5, 5.25, 3.5
+	// positions: an ordinary one, the poles / the date line exactly, the southern and western hemispheres
+	pi := symInt(0, 4)
+	lat := [...]float64{60.5, 90, -90, -0.5, 45.25}[pi]
+	lon := [...]float64{5.25, 180, -180, -0.25, -120.75}[pi]
+	wantLat := [...]string{"60-30.0000N", "90-00.0000N", "90-00.0000S", "00-30.0000S", "45-15.0000N"}[pi]
+	wantLon := [...]string{"005-15.0000E", "180-00.0000E", "180-00.0000W", "000-15.0000W", "120-45.0000W"}[pi]
+	speed := 3.5
 	hasPos, hasSpeed, hasCourse, hasComment := symInt(0, 1) == 1, symInt(0, 1) == 1, symInt(0, 1) == 1, symInt(0, 1) == 1
 	if hasPos {
 		p.Lat, p.Lon = &lat, &lon
@@ -129,7 +135,8 @@ func H_c20_message() {
 	body, err := msg.Body()
 	symAssert(err == nil, "body-readable")
 	has := func(prefix string) bool { return strings.Contains(body, prefix) }
-	symAssert(has("LATITUDE: 60-30.0000N\r\n") == hasPos && has("LONGITUDE: 005-15.0000E\r\n") == hasPos, "position-lines-iff-both-set")
+	symAssert(has("LATITUDE: "+wantLat+"\r\n") == hasPos && has("LONGITUDE: "+wantLon+"\r\n") == hasPos, "position-lines-iff-both-set")
+	symAssert(has("LATITUDE: ") == hasPos && has("LONGITUDE: ") == hasPos, "position-lines-iff-both-set")
 	symAssert(has("SPEED: ") == hasSpeed, "speed-line-iff-set")
 	symAssert(has("COURSE: 123T\r\n") == hasCourse, "course-line-iff-set")
 	symAssert(has("COMMENT: hello\r\n") == hasComment, "comment-line-iff-set")
